@@ -39,7 +39,13 @@ def generate(rng, focus, tier="quick"):
     else:
         d0 = rng.randrange(cal.epoch_day(1999, 1, 1), cal.epoch_day(2024, 12, 1))
     length = rng.choice(LENGTHS) if tier == "quick" else rng.choice(LENGTHS + [800, 1500])
-    if "C13" not in focus and rng.random() < 0.03:
+    very_long = False
+    if rng.random() < (0.01 if tier == "thorough" else 0.0015):
+        # nearly three centuries in one range: more days than a nanosecond-based day offset can express
+        very_long = True
+        d0 = cal.epoch_day(rng.choice([1690, 1700, 1750]), 1, rng.randrange(1, 28))
+        length = rng.choice([106752, 107000, 110000])
+    if "C13" not in focus and rng.random() < 0.03 and not very_long:
         # C12 only (the schedules need pandas' nanosecond range, which ends in 2262): the last days any date type can hold: ranges ending on, or just before, 9999-12-31
         last_day = cal.epoch_day(9999, 12, 31)
         length = rng.choice([0, 1, 2, 3, 5, 8, 20])
@@ -85,6 +91,9 @@ def generate(rng, focus, tier="quick"):
         plan["interleave"] = {"n": n_it, "shift_days": rng.choice([0, 1, 1, 2, 7]),
                               "pre2": rng.random() < 0.5, "post2": rng.random() < 0.5,
                               "schedule": [rng.randrange(n_it) for _ in range(rng.choice([6, 12, 24, 48]))]}
+    if very_long:
+        plan["before"] = []
+        plan["interleave"] = None
     r = rng.random()
     if r < 0.06:
         plan["fault"] = "end_before_start"
@@ -92,6 +101,14 @@ def generate(rng, focus, tier="quick"):
     elif r < 0.12:
         plan["fault"] = "bad_weekday"
         plan["wd"] = rng.choice(["SAT", "SUN", "XYZ", "sat", "", "MONDAY", "WE", "MON\n", "wed\n", " TUE", "FRI ", "Fri\n"])
+        if rng.random() < 0.4:
+            # pieces of the valid names run together: every 2..4-letter window that is not itself a weekday
+            packed = rng.choice(["MONTUEWEDTHUFRI", "MON,TUE,WED,THU,FRI", "MONTUEWEDTHUFRISATSUN", "montuewedthufri"])
+            k = rng.choice([2, 3, 3, 3, 4])
+            i = rng.randrange(0, len(packed) - k + 1)
+            cand = packed[i:i + k]
+            if cand.upper() not in cal.WEEKDAYS:
+                plan["wd"] = cand
     return plan
 
 
